@@ -360,8 +360,8 @@ pub fn check() -> Check {
         assumptions: &["a finite run cannot show non-termination: a reply chain longer than the caps (an order of magnitude above the longest legitimate one observed) is what is reported"],
         required: &["cascades_drained", "initial/TurnUndead", "initial/Ping"],
         workloads: vec![
-            Workload { name: "cascade", f: cascade_case, quick: 60_000, thorough: 3_000_000, flav: Flav::Checked },
-            Workload { name: "feedstorm", f: feedstorm_case, quick: 8_000, thorough: 400_000, flav: Flav::Checked },
+            Workload { name: "cascade", f: cascade_case, quick: 240_000, thorough: 3_000_000, flav: Flav::Checked },
+            Workload { name: "feedstorm", f: feedstorm_case, quick: 32_000, thorough: 400_000, flav: Flav::Checked },
         ],
         exhaustive: false,
         aggregate: None,
